@@ -107,6 +107,8 @@ type Violation struct {
 	Replayed      bool
 	Confirmed     bool
 	NativeOutcome string
+	OracleMismatch string
+	NativeEvents  []ReplayEvent
 }
 
 type AssertStat struct {
@@ -174,6 +176,7 @@ type Exec struct {
 	obs      []Observation
 	globals  map[*ssa.Global]*Value
 	inexact  bool
+	approx   bool // an uninterpreted approximation was used on this path: models may be spurious
 	steps    int64
 	ndec     int
 	depth    int
@@ -201,6 +204,9 @@ type Exec struct {
 	replayN    int
 	tier       string
 	trackGlobals bool
+	prop       string
+	facts      map[string]*Term
+	factOrder  []string
 }
 
 type WorkQueue struct {
@@ -273,7 +279,19 @@ func NewExec(w *World, id int, solverName string, timeoutMs int) (*Exec, error) 
 	if err != nil {
 		return nil, err
 	}
-	return &Exec{w: w, tb: NewTermBuilder(), solver: s, id: id, maxSteps: 20_000_000, maxDec: 400, maxDepth: 400}, nil
+	e := &Exec{w: w, tb: NewTermBuilder(), solver: s, id: id, maxSteps: 20_000_000, maxDec: 400, maxDepth: 400}
+	if os.Getenv("GOSYM_SLOW") != "" {
+		s.onSlow = func(d time.Duration, r string) {
+			in := []string{}
+			for _, iv := range e.inputs {
+				if iv.Term.IsConst() {
+					in = append(in, fmt.Sprintf("%s=%d", iv.Name, iv.Term.u))
+				}
+			}
+			fmt.Fprintf(os.Stderr, "slow query %.1fs %s in %s inputs %v\n", d.Seconds(), r, e.curFnName(), in)
+		}
+	}
+	return e, nil
 }
 
 func (e *Exec) abort(kind, format string, args ...interface{}) {
@@ -302,6 +320,7 @@ func (e *Exec) resetPath(prefix []Decision) {
 	e.obs = nil
 	e.globals = map[*ssa.Global]*Value{}
 	e.inexact = false
+	e.approx = false
 	e.steps = 0
 	e.ndec = 0
 	e.depth = 0
@@ -314,6 +333,8 @@ func (e *Exec) resetPath(prefix []Decision) {
 	e.globalCells = nil
 	e.pathFuncs = map[string]int{}
 	e.lastPanic = nil
+	e.facts = map[string]*Term{}
+	e.factOrder = nil
 	e.notes = nil
 	e.resources = nil
 }
